@@ -6,3 +6,4 @@ import OapiVerif.Props.C04
 import OapiVerif.Props.C05
 import OapiVerif.Props.C06
 import OapiVerif.Props.C03
+import OapiVerif.Props.C13
